@@ -16,6 +16,7 @@ import Driver.Conf
 import Driver.Cli
 import Driver.Mml
 import Driver.Link
+import Driver.MdDrv
 open Driver
 
 def allHandlers : List Handler :=
@@ -32,6 +33,7 @@ def allHandlers : List Handler :=
   ++ CliD.handlers
   ++ MmlD.handlers
   ++ LinkD.handlers
+  ++ MdDrvD.handlers
 
 def answerModel (cmd arg : String) : String :=
   match allHandlers.find? (·.cmd == cmd) with
